@@ -234,6 +234,9 @@ func exec(c px.Context, op string, args []sx.Sexp) (res core.Result) {
 	if op == "files" {
 		return execFiles(args)
 	}
+	if op == "nested" {
+		return execNested(args)
+	}
 	if op != "sched" {
 		return core.Result{Out: "bad-op", Pred: "n/a"}
 	}
